@@ -5,6 +5,7 @@ package verifsim
 
 import (
 	"bytes"
+	"context"
 	"crypto/sha256"
 	"encoding/hex"
 	"errors"
@@ -151,6 +152,13 @@ func cloneHeader(h http.Header) http.Header {
 		return http.Header{}
 	}
 	return h.Clone()
+}
+
+// ServeCtx is Serve with an explicit request context (net/http cancels it when the handler returns).
+func (f *Fabric) ServeCtx(ctx context.Context, r *HTTPReq) *http.Response {
+	cp := *r
+	cp.req = httptest.NewRequest(r.Method, "http://"+r.Host+r.Path, nil).WithContext(ctx)
+	return f.Serve(&cp)
 }
 
 // Serve runs the registered handler for r the way http.Server would and returns its response.
